@@ -2,10 +2,12 @@ package main
 
 import (
 	"bytes"
+	"errors"
 	"io"
-	"net/url"
+	"net"
 	"net/http"
 	"net/http/httptest"
+	"net/url"
 	"sync"
 	"time"
 
@@ -46,8 +48,10 @@ type memStore struct {
 	onGet func(key string) ([]byte, error, bool)
 	onSet func(key string) error
 	onDel func(key string) error
-	gets  int
-	dels  []string
+	// called at the entry of Delete, before the store's own mutex is taken (a slow delete)
+	preDel func(key string)
+	gets   int
+	dels   []string
 }
 
 func newMemStore() *memStore { return &memStore{m: map[string][]byte{}} }
@@ -80,6 +84,9 @@ func (s *memStore) Set(key []byte, data []byte, ttl time.Duration) error {
 	return nil
 }
 func (s *memStore) Delete(key []byte) error {
+	if s.preDel != nil {
+		s.preDel(string(key))
+	}
 	s.mu.Lock()
 	defer s.mu.Unlock()
 	s.dels = append(s.dels, string(key))
@@ -174,7 +181,7 @@ func newPipeline(cacheSize int, hitForPass string, withStore bool, srvOpt server
 }
 
 func (p *pipeline) setScript(f upstreamScript) { p.mu.Lock(); p.script = f; p.mu.Unlock() }
-func (p *pipeline) calls() int                  { p.mu.Lock(); defer p.mu.Unlock(); return p.upCalls }
+func (p *pipeline) calls() int                 { p.mu.Lock(); defer p.mu.Unlock(); return p.upCalls }
 
 func buildRequest(method, host, uri string, hdr http.Header, body []byte) *http.Request {
 	var rd io.Reader = http.NoBody
@@ -230,3 +237,43 @@ func serverOption() server.ServerOption { return server.ServerOption{Addr: ":0"}
 func bytesBuf(s string) *bytes.Buffer { return bytes.NewBufferString(s) }
 
 var storeErrNotFound = store.ErrNotFound
+
+// the admin server's purge endpoint (DELETE /cache?key=&cache=), started once per process on a free port
+var adminAddr string
+var adminOnce sync.Once
+
+func adminPurge(cacheName, key string) (int, error) {
+	adminOnce.Do(func() {
+		ln, err := net.Listen("tcp", "127.0.0.1:0")
+		if err != nil {
+			return
+		}
+		addr := ln.Addr().String()
+		ln.Close()
+		go func() { _ = server.StartAdminServer(server.AdminServerConfig{Addr: addr}) }()
+		for i := 0; i < 100; i++ {
+			if c, err := net.DialTimeout("tcp", addr, 100*time.Millisecond); err == nil {
+				c.Close()
+				adminAddr = addr
+				return
+			}
+			time.Sleep(20 * time.Millisecond)
+		}
+	})
+	if adminAddr == "" {
+		return 0, errors.New("admin server did not start")
+	}
+	q := url.Values{}
+	q.Set("key", key)
+	if cacheName != "" {
+		q.Set("cache", cacheName)
+	}
+	req, _ := http.NewRequest("DELETE", "http://"+adminAddr+"/cache?"+q.Encode(), nil)
+	resp, err := http.DefaultClient.Do(req)
+	if err != nil {
+		return 0, err
+	}
+	io.Copy(io.Discard, resp.Body)
+	resp.Body.Close()
+	return resp.StatusCode, nil
+}
